@@ -106,17 +106,15 @@ theorem parser_with_base_partial (idna : Idna) (b : Url) (hinv : RecInv b = true
     ParseSpecial.parseWithBase idna (UR.recOf b) input = PS.outOf (parse idna input (some b)) :=
   PB.machineB_spec idna b ⟨hinv, hseg⟩ input hid hclean
 
-/-- **… and the default type with a base** (`partial`: no `file` URL on either side): `parse_url_impl<ada::url_aggregator>(input,
-    &base)` on the base object that lays out `b` leaves the layout of `Spec.parse input (some b)` - through
-    `Props.C04.parse_agrees_with_base_partial` and `parser_with_base_partial` -/
+/-- **… and the default type with a base**: `parse_url_impl<ada::url_aggregator>(input, &base)` on the base object that lays
+    out `b` leaves the layout of `Spec.parse input (some b)` - through `Props.C04.parse_agrees_with_base` and
+    `parser_with_base_partial` (same side condition) -/
 theorem aggregator_parser_with_base_partial (idna : Idna) (b : Url) (hinv : RecInv b = true) (hseg : PP.NoSlash b.path)
     (hch : PAB.CredHostOk b) (input : Bytes) (hid : ∀ d, HP.IdnaAt idna d)
-    (hclean : HS.bracketClean (ParseSpecial.hostStartB (UR.recOf b) input).1 false (ParseSpecial.hostStartB (UR.recOf b) input).2 = true)
-    (hnf : getSchemeType b.scheme ≠ 6)
-    (hin : ∀ name rest, ParseSpecial.schemeScan (ParseSpecial.prep input).1 = some (name, rest) → (ParseSpecial.parseSchemeNoOverride name).1 ≠ 6) :
+    (hclean : HS.bracketClean (ParseSpecial.hostStartB (UR.recOf b) input).1 false (ParseSpecial.hostStartB (UR.recOf b) input).2 = true) :
     ParseAgg.machineBA idna (Agg.layout (UrlRec.toL (UR.recOf b))) input =
       some ((parse idna input (some b)).map (fun u => Agg.layout (UrlRec.toL (UR.recOf u)))) := by
-  rw [PAB.machineBA_eq idna (UR.recOf b) (PAB.baseRec_of b hinv hseg hch) input hnf hin,
+  rw [PAB.machineBA_eq_full idna (UR.recOf b) (PAB.baseRec_of b hinv hseg hch) input hid,
     PB.machineB_spec idna b ⟨hinv, hseg⟩ input hid hclean]
   cases parse idna input (some b) <;> rfl
 
